@@ -106,14 +106,22 @@ const Statement * FORStatement::doit(Context& ctx) const
   {
     RT * data = reinterpret_cast<RT*>(ctx.topControlData());
     /* var is type safe, so it can be read/write without care */
-    Integer nxt = *(data->iterator->integer()) + data->step;
-    if ((data->step > 0 && nxt > data->max) ||
-        (data->step < 0 && nxt < data->min))
+    /* the control variable never wraps around: test the remaining room
+     * before stepping, using the unsigned distance to the limit */
+    Integer cur = *(data->iterator->integer());
+    bool out;
+    if (data->step > 0)
+      out = (cur > data->max ||
+             uint64_t(data->step) > uint64_t(data->max) - uint64_t(cur));
+    else
+      out = (cur < data->min ||
+             uint64_t(0) - uint64_t(data->step) > uint64_t(cur) - uint64_t(data->min));
+    if (out)
     {
       ctx.unstackControl();
       return _next;
     }
-    *(data->iterator->integer()) = nxt;
+    *(data->iterator->integer()) = cur + data->step;
   }
 
   /* it should run with the given context, and will throw on error */
